@@ -56,10 +56,15 @@ func setupC05(x *Ctx) {
 	// a reset between "connection object created, pumps running" and "registered"
 	if x.Chance("cut-at-register", 0.12) {
 		k := 1 + x.Choose("cut-at-register-k", 4)
+		stall := x.Chance("stall-at-register", 0.5)
 		r.atRegister = func(node string, n int) {
 			if n == k {
 				x.Probe("cut-at-register")
 				r.cutNewest(node)
+				if stall {
+					// the registering goroutine is descheduled for a moment
+					simrt.Sleep(time.Millisecond)
+				}
 			}
 		}
 	}
